@@ -216,8 +216,38 @@ def run_sync(fn, args, kwargs):
     return r
 
 
-def check_seam_a(res, sig, kind, shapes, uniq):
+FALSY = {"p0": 0, "p1": "", "p2": None, "U_x": False, "U_y": (), "U_extra": 0.0,
+         "U_source": b"", "U_event_data": frozenset(), "U_args": 0j, "U_kwargs": range(0)}
+FALSY_BUILTINS = {f"B_{n}": v for n, v in zip(
+    BUILTIN_NAMES, (None, 0, "", False, (), 0.0, b"", frozenset()))}
+
+
+def falsify(v, mode):
+    """mode 'kw': keywords and built-ins falsy, positionals as they are; 'all': positionals too."""
+    if isinstance(v, str):
+        if v in FALSY_BUILTINS:
+            return FALSY_BUILTINS[v]
+        if v in FALSY and (mode == "all" or not v.startswith("p")):
+            return FALSY[v]
+    return v
+
+
+def canon(v):
+    """Typed canonical form, so that 0, False, 0.0, '' and () never compare equal."""
+    if v is TypeError:
+        return "TypeError"
+    if isinstance(v, dict):
+        return ("dict", tuple(sorted((k, canon(x)) for k, x in v.items())))
+    if isinstance(v, tuple):
+        return ("tuple", tuple(canon(x) for x in v))
+    return (type(v).__name__, repr(v))
+
+
+def check_seam_a(res, sig, kind, shapes, uniq, falsy=None):
     from statemachine.dispatcher import callable_method
+    if falsy:
+        shapes = [(tuple(falsify(a, falsy) for a in args),
+                   {k: falsify(v, falsy) for k, v in ukw.items()}) for (args, ukw) in shapes]
     fn = make_callable(sig, kind, uniq)
     params = list(inspect.signature(fn).parameters.values())
     try:
@@ -227,8 +257,10 @@ def check_seam_a(res, sig, kind, shapes, uniq):
                       {"sig": [list(s) for s in sig], "kind": kind},
                       f"callable_method raised {type(e).__name__}: {e}")
         return
-    for (args, ukw) in shapes:
+    for si, (args, ukw) in enumerate(shapes):
         kw = engine_kwargs(ukw)
+        if falsy:
+            kw = {k: falsify(v, falsy) for k, v in kw.items()}
         try:
             exp = ref_bind(params, args, kw)
         except TypeError:
@@ -242,6 +274,19 @@ def check_seam_a(res, sig, kind, shapes, uniq):
         res.stats["evaluations"] += 1
         if exp is TypeError and got is TypeError:
             res.hist["typeerror-expected"] += 1
+            continue
+        if falsy:
+            if canon(exp) != canon(got):
+                sg = _sig_of(sig, kind, args, ukw, exp, got)
+                if sg["category"] == "binding":
+                    sg["category"] = "binding-falsy-values"
+                res.violation(sg, {"seam": "a", "sig": [list(s) for s in sig], "kind": kind,
+                                   "falsy": falsy, "shape": si},
+                              f"{render(sig).splitlines()[0]} [{kind}] called with falsy values "
+                              f"args={args!r} user_kw={ukw!r} (built-ins falsy too): expected "
+                              f"{_fmt(exp)} got {_fmt(got)}")
+            else:
+                res.hist["bound-ok-falsy"] += 1
             continue
         if exp != got:
             res.violation(_sig_of(sig, kind, args, ukw, exp, got),
@@ -561,6 +606,133 @@ def check_forwarding(res):
             res.hist["forwarding-ok"] += 1
 
 
+# -- user keyword names ---------------------------------------------------------------------------
+
+def library_parameter_names():
+    """Every identifier a user keyword could collide with inside the library: the parameter names
+    of every function and method of every statemachine module, and the fields of its
+    dataclasses - collected from the tree under test, so the alphabet follows the code."""
+    import dataclasses
+    import importlib
+    import pkgutil
+
+    import statemachine
+    names = set()
+    mods = [statemachine]
+    for mi in pkgutil.walk_packages(statemachine.__path__, "statemachine."):
+        if ".contrib" in mi.name:
+            continue
+        try:
+            mods.append(importlib.import_module(mi.name))
+        except Exception:   # noqa: BLE001,S112 - optional modules
+            continue
+
+    def of_callable(f):
+        code = getattr(f, "__code__", None)
+        if code is not None:
+            n = code.co_argcount + code.co_kwonlyargcount
+            names.update(code.co_varnames[:n])
+
+    for m in mods:
+        for obj in list(vars(m).values()):
+            if getattr(obj, "__module__", None) != m.__name__:
+                continue
+            if inspect.isfunction(obj):
+                of_callable(obj)
+            elif inspect.isclass(obj):
+                if dataclasses.is_dataclass(obj):
+                    names.update(f.name for f in dataclasses.fields(obj))
+                for v in vars(obj).values():
+                    v = getattr(v, "__func__", v)
+                    v = getattr(v, "fget", v) if isinstance(v, property) else v
+                    if inspect.isfunction(v):
+                        of_callable(v)
+    return sorted(n for n in names if n.isidentifier())
+
+
+def check_user_names(res):
+    """A user keyword argument with *any* non-reserved name reaches every callback of the event
+    (declared by name, or through **kwargs) and never causes a TypeError - in particular names
+    that the library itself uses for parameters or EventData/TriggerData fields."""
+    from statemachine import State, StateMachine
+    from statemachine.factory import StateMachineMetaclass
+    reserved = set(BUILTIN_NAMES) | {"self"}
+    names = [n for n in library_parameter_names() if n not in reserved]
+    res.stats["user_names"] = len(names)
+    for asyn in (False, True):
+        for nm in names:
+            seen = []
+            ns = {"seen": seen}
+            a_ = "async " if asyn else ""
+            hooks = ("val", "cond", "before_go", "on_exit_a", "on_go", "on_enter_b", "after_go")
+            src = ""
+            for h in hooks:
+                ret = "return True" if h == "cond" else "return None"
+                src += (f"{a_}def {h}(self, **kwargs):\n"
+                        f"    seen.append(('{h}', kwargs.get('{nm}', 'MISSING'), "
+                        f"type(kwargs['event_data']).__name__))\n    {ret}\n")
+                src += (f"{a_}def {h}_named(self, {nm}='DEFAULT'):\n"
+                        f"    seen.append(('{h}_named', {nm}, None))\n    {ret}\n")
+            exec(src, ns)   # noqa: S102 - generated source
+            a, b = State(initial=True, exit="on_exit_a_named"), State(enter="on_enter_b_named")
+            body = {"a": a, "b": b,
+                    "go": a.to(b, cond=["cond", "cond_named"], validators=["val", "val_named"],
+                               on=["on_go_named"], before="before_go_named",
+                               after="after_go_named") | b.to(a)}
+            body.update({k: v for k, v in ns.items() if k != "seen" and not k.startswith("__")})
+            cls = None
+            for style in ("send", "method"):
+                del seen[:]
+                sc = {"user_name": nm, "asyn": asyn, "style": style}
+                try:
+                    if cls is None:
+                        cls = StateMachineMetaclass("MU", (StateMachine,), dict(body))
+                    sm = cls()
+                    if asyn:
+                        r0 = sm.activate_initial_state()
+                        if inspect.isawaitable(r0):
+                            run_sync_coro(r0)
+                    kw = {nm: "U"}
+                    r = sm.send("go", **kw) if style == "send" else sm.go(**kw)
+                    if inspect.isawaitable(r):
+                        run_sync_coro(r)
+                except Exception as e:   # noqa: BLE001
+                    res.stats["evaluations"] += 1
+                    res.violation({"category": "user-keyword-name", "exc": type(e).__name__},
+                                  sc, f"sm.{'send(\'go\', ' if style == 'send' else 'go('}{nm}='U') "
+                                  f"[{'async' if asyn else 'sync'}] raised {type(e).__name__}: {e}")
+                    continue
+                res.stats["evaluations"] += 1
+                want = []
+                for h in ("val", "cond", "before_go", "on_exit_a", "on_go", "on_enter_b",
+                          "after_go"):
+                    want.append(h)
+                    want.append(h + "_named")
+                got = {s_[0]: s_ for s_ in seen}
+                bad = None
+                for h in want:
+                    if h not in got:
+                        bad = f"callback {h} did not run"
+                    elif got[h][1] != "U":
+                        bad = (f"callback {h} received {got[h][1]!r} for the user keyword "
+                               f"{nm}='U'")
+                    elif got[h][2] not in (None, "EventData"):
+                        bad = f"callback {h}: event_data is a {got[h][2]}"
+                    if bad:
+                        break
+                if bad:
+                    res.violation({"category": "user-keyword-name"}, sc,
+                                  f"user keyword {nm}='U' ({style}, {'async' if asyn else 'sync'}): "
+                                  f"{bad}")
+                else:
+                    res.hist["user-name-ok"] += 1
+
+
+def run_sync_coro(co):
+    from ..drive import loop
+    return loop().run_until_complete(co)
+
+
 # -- driver -------------------------------------------------------------------------------------
 
 def sig_list(tier):
@@ -575,6 +747,7 @@ def worker(block):
         with deadline(600):
             check_independence(res)
             check_forwarding(res)
+            check_user_names(res)
         res.stats["states"] += 1
         return res
     tier, lo, hi = block
@@ -589,6 +762,9 @@ def worker(block):
             try:
                 with deadline(60):
                     check_seam_a(res, sig, kind, shapes, f"{uniq}_{ki}")
+                    if kind == "function" or (tier != "quick" and kind == "coroutine"):
+                        for mode in ("kw", "all"):
+                            check_seam_a(res, sig, kind, shapes, f"{uniq}_{ki}{mode}", falsy=mode)
             except Hang:
                 res.violation({"category": "hang"}, {"sig": [list(s) for s in sig]}, "hung")
         if len(sig) <= (2 if tier == "quick" else 3):
@@ -620,6 +796,7 @@ def run(tier, seed):
         "evaluations": total.stats["evaluations"],
         "signatures": n, "call_shapes": len(call_shapes()),
         "independence_bindings": total.stats["independence_bindings"],
+        "user_keyword_names": total.stats.get("user_names", 0),
         "outcome_histogram": dict(total.hist),
         "samples": total.samples or [{"note": "no sample"}],
         "rule": "states = signatures (x callable kinds); transitions = bindings executed on the "
@@ -643,7 +820,17 @@ def replay(sc):
     if "forwarding" in sc:
         check_forwarding(res)
         return res.violations[0]["message"] if res.violations else None
+    if "user_name" in sc:
+        check_user_names(res)
+        for v in res.violations:
+            if v["scenario"] == sc:
+                return v["message"]
+        return None
     sig = tuple(tuple(s) for s in sc["sig"])
+    if sc.get("falsy"):
+        check_seam_a(res, sig, sc["kind"], [call_shapes()[sc["shape"]]], "_replay",
+                     falsy=sc["falsy"])
+        return res.violations[0]["message"] if res.violations else None
     shapes = [(tuple(sc["args"]), sc["user_kw"])] if "args" in sc else call_shapes()
     (check_seam_a if sc.get("seam", "a") == "a" else check_seam_b)(res, sig, sc["kind"], shapes,
                                                                      "_replay")
